@@ -784,11 +784,27 @@ evaluate() const {
       if (r1._type == RT_real || r2._type == RT_real) {
         return Result(r1.as_real() / r2.as_real());
       } else {
-        return Result(r1.as_integer() / r2.as_integer());
+        int divisor = r2.as_integer();
+        if (divisor == 0 || (divisor == -1 && r1.as_integer() == INT_MIN)) {
+          // Division by zero or overflow; not a constant expression.
+          return Result();
+        }
+        return Result(r1.as_integer() / divisor);
       }
 
     case '%':
-      return Result(r1.as_integer() % r2.as_integer());
+      {
+        int divisor = r2.as_integer();
+        if (divisor == 0) {
+          // Division by zero; not a constant expression.
+          return Result();
+        }
+        if (divisor == -1) {
+          // Avoid the overflow of INT_MIN % -1.
+          return Result(0);
+        }
+        return Result(r1.as_integer() % divisor);
+      }
 
     case '+':
       if (r1._type == RT_real || r2._type == RT_real) {
